@@ -249,6 +249,78 @@ def simulateSV (sv : List Int) (n : Nat) (f : Nat → List α → Option (List N
     | .ok Option.none => .ok Option.none
     | .ok (some r) => .ok ((annotate sv r.paths).map fun X => (r.dim, X))
 
+/-! ### argument forms of `init` -/
+
+/-- How `init` reaches `simulate_indices` / `simulate`:
+    * `ok i` — `None`, an instance of `numbers.Integral` (Python `int`/`bool`, every NumPy integer
+      scalar type), or an array-like whose elements are such after `np.asarray`;
+    * `nonIntegral` — an object without `len()` that is not `numbers.Integral` (0-d array,
+      `np.bool_`, `float`): `simulate_indices` raises `ValueError('init must be int, …')`,
+      `get_index` (state_values `None`) raises `ValueError('value … not found')`;
+    * `arrNI l` — an array-like that `np.asarray(init, dtype=int)` converts to `l` but whose
+      elements are not `numbers.Integral` (bool / float arrays): accepted by `simulate_indices`,
+      rejected element-wise by `get_index` (so only the empty one passes `simulate`). -/
+inductive InitArg
+  | ok (i : Init)
+  | nonIntegral
+  | arrNI (l : List Int)
+deriving Repr
+
+def simulateIndicesA (n : Nat) (f : Nat → List α → Option (List Nat)) (a : InitArg)
+    (numReps : Option Nat) (drawn : List Nat) (ts : Nat) (us : List (List α)) :
+    Except Err (Option SimRes) :=
+  match a with
+  | .ok i => simulateIndices n f i numReps drawn ts us
+  | .nonIntegral => .error .valueError
+  | .arrNI l => simulateIndices n f (.arr l) numReps drawn ts us
+
+def simulateA (n : Nat) (f : Nat → List α → Option (List Nat)) (a : InitArg)
+    (numReps : Option Nat) (drawn : List Nat) (ts : Nat) (us : List (List α)) :
+    Except Err (Option SimRes) :=
+  match a with
+  | .ok i => simulate n f i numReps drawn ts us
+  | .nonIntegral => .error .valueError
+  | .arrNI l => if l.isEmpty then simulate n f (.arr []) numReps drawn ts us else .error .valueError
+
+/-! ### histories on one `MarkovChain` object
+
+The only attribute of the object that `simulate` reads besides `P` (and the cdf caches, which are
+functions of `P`) is `state_values`; the model's object state is exactly that. -/
+
+inductive HOp (α : Type)
+  | setSV (sv : Option (List Int))
+  | call (viaSim : Bool) (a : InitArg) (numReps : Option Nat) (drawn : List Nat) (ts : Nat)
+      (us : List (List α))
+
+inductive HOut
+  | set (ok : Bool)                                       -- the setter returned / raised ValueError
+  | idx (r : Except Err (Option SimRes))                   -- array of indices
+  | vals (r : Except Err (Option (Nat × List (List Int))))  -- array of state values
+
+/-- one operation: new `state_values`, and what the call returned.
+    Setter (221-240): `None`, or a 1-D array of length `n` (else `ValueError`, attribute unchanged).
+    `simulate_indices` ignores `state_values`; `simulate` uses the *current* ones. -/
+def stepH (n : Nat) (f : Nat → List α → Option (List Nat)) (sv : Option (List Int)) :
+    HOp α → Option (List Int) × HOut
+  | .setSV Option.none => (Option.none, .set true)
+  | .setSV (some l) => if l.length = n then (some l, .set true) else (sv, .set false)
+  | .call false a reps drawn ts us => (sv, .idx (simulateIndicesA n f a reps drawn ts us))
+  | .call true a reps drawn ts us =>
+    match sv with
+    | Option.none => (sv, .idx (simulateA n f a reps drawn ts us))
+    | some l =>
+      match a with
+      | .ok i => (sv, .vals (simulateSV l n f i reps drawn ts us))
+      | _ => (sv, .vals (.ok Option.none))      -- outside the modelled domain
+
+def runH (n : Nat) (f : Nat → List α → Option (List Nat)) : Option (List Int) → List (HOp α) → List HOut
+  | _, [] => []
+  | sv, op :: ops => (stepH n f sv op).2 :: runH n f (stepH n f sv op).1 ops
+
+def finalSV (n : Nat) (f : Nat → List α → Option (List Nat)) (sv : Option (List Int))
+    (ops : List (HOp α)) : Option (List Int) :=
+  ops.foldl (fun s op => (stepH n f s op).1) sv
+
 /-! ### mc_sample_path (markov/core.py 704-715) -/
 
 /-- `init` of `mc_sample_path`: a state, or an initial distribution with the uniform `u_0`
@@ -317,11 +389,13 @@ def acceptChain (P : List (List Rat)) : Except Err Unit :=
 
 open QE
 
-def parseInit? (s : String) : Option Init :=
-  if s = "none" then some .none
+def parseInit? (s : String) : Option InitArg :=
+  if s = "none" then some (.ok .none)
+  else if s = "x" then some .nonIntegral
   else match s.splitOn ":" with
-    | ["s", v] => (parseInt? v).map .scalar
-    | ["a", v] => (parseList? parseInt? v).map .arr
+    | ["s", v] => (parseInt? v).map fun i => .ok (.scalar i)
+    | ["a", v] => (parseList? parseInt? v).map fun l => .ok (.arr l)
+    | ["b", v] => (parseList? parseInt? v).map .arrNI
     | _ => Option.none
 
 def parseReps? (s : String) : Option (Option Nat) :=
@@ -346,7 +420,7 @@ def scFloat : Sc Float := ⟨kvFloats, kvFloatMat, parseFloat?, showFloatBits⟩
 def scRat : Sc Rat := ⟨kvRats, kvRatMat, parseRat?, showRat⟩
 
 structure SimArgs where
-  init : Init
+  init : InitArg
   reps : Option Nat
   drawn : List Nat
   viaSim : Bool
@@ -379,22 +453,64 @@ def showResSV : Except Err (Option (Nat × List (List Int))) → String
   | .ok Option.none => "model-out-of-domain"
   | .ok (some (dim, X)) => "dim=" ++ toString dim ++ "|k=" ++ toString X.length ++ "|X=" ++ showMat toString X
 
-def runSim (n : Nat) (f : Nat → List α → Option (List Nat)) (a : SimArgs) (us : List (List α)) : String :=
+/-- number of paths the call will produce (0 when it raises), to rebuild `(k, 0)` uniform arrays -/
+def kOf (n : Nat) (a : SimArgs) (sv : Option (List Int)) : Nat :=
   let init' : Except Err Init :=
-    match a.viaSim, a.sv with
-    | false, _ => .ok a.init
-    | true, Option.none => getIndex n a.init
-    | true, some sv => getIndexSV sv a.init
-  let k := match init' with
+    match a.viaSim, sv, a.init with
+    | false, _, .ok i => .ok i
+    | false, _, .arrNI l => .ok (.arr l)
+    | true, Option.none, .ok i => getIndex n i
+    | true, Option.none, .arrNI l => if l.isEmpty then .ok (.arr []) else .error .valueError
+    | true, some sv, .ok i => getIndexSV sv i
+    | _, _, _ => .error .valueError
+  match init' with
+  | .error _ => 0
+  | .ok i => match initStates n i a.reps a.drawn with
     | .error _ => 0
-    | .ok i => match initStates n i a.reps a.drawn with
-      | .error _ => 0
-      | .ok ir => ir.states.length
-  let us' := fixUs k a.ts us
-  match a.viaSim, a.sv with
-  | false, _ => showRes (simulateIndices n f a.init a.reps a.drawn a.ts us')
-  | true, Option.none => showRes (simulate n f a.init a.reps a.drawn a.ts us')
-  | true, some sv => showResSV (simulateSV sv n f a.init a.reps a.drawn a.ts us')
+    | .ok ir => ir.states.length
+
+def showHOut : HOut → String
+  | .set true => "set-ok"
+  | .set false => "ERR:ValueError"
+  | .idx r => showRes r
+  | .vals r => showResSV r
+
+def runSim (n : Nat) (f : Nat → List α → Option (List Nat)) (a : SimArgs) (us : List (List α)) : String :=
+  let us' := fixUs (kOf n a a.sv) a.ts us
+  showHOut (stepH n f a.sv (.call a.viaSim a.init a.reps a.drawn a.ts us')).2
+
+/-- tokens `o<i>.key=value` of operation `i`, prefix removed -/
+def opToks (toks : List String) (i : Nat) : List String :=
+  let pre := ("o" ++ toString i ++ ".").toList
+  toks.filterMap fun t => if pre.isPrefixOf t.toList then some (String.ofList (t.toList.drop pre.length)) else none
+
+def parseSV? (s : String) : Option (Option (List Int)) :=
+  if s = "none" then some Option.none else (parseList? parseInt? s).map some
+
+/-- `hist`: a sequence of setter assignments and simulate calls on one object -/
+def runHist (n : Nat) (f : Nat → List α → Option (List Nat)) (umat : List String → String → Option (List (List α)))
+    (toks : List String) : String :=
+  match (kv toks "sv0").bind parseSV?, kvNat toks "nops" with
+  | some sv0, some nops =>
+    let ops? : Option (List (Option (List Int) → HOp α)) := (List.range nops).mapM fun i =>
+      let r := opToks toks i
+      match kv r "kind" with
+      | some "set" => ((kv r "sv").bind parseSV?).map fun sv => fun _ => HOp.setSV sv
+      | some "call" =>
+        match simArgs r, umat r "u" with
+        | some a, some us => some fun cur =>
+            HOp.call a.viaSim a.init a.reps a.drawn a.ts (fixUs (kOf n a cur) a.ts us)
+        | _, _ => Option.none
+      | _ => Option.none
+    match ops? with
+    | Option.none => "bad-op"
+    | some mk =>
+      -- (`fixUs` needs the current state_values; thread them while building the operations)
+      let (_, ops) := mk.foldl (fun (acc : Option (List Int) × List (HOp α)) m =>
+        let op := m acc.1
+        ((stepH n f acc.1 op).1, acc.2 ++ [op])) (sv0, [])
+      " ## ".intercalate ((runH n f sv0 ops).map showHOut)
+  | _, _ => "bad-op"
 
 def handleSc [Add α] [LT α] [DecidableLT α] [BEq α] (sc : Sc α) (toks : List String) : String :=
   match toks with
@@ -416,6 +532,15 @@ def handleSc [Add α] [LT α] [DecidableLT α] [BEq α] (sc : Sc α) (toks : Lis
       let c := cdfsDense P
       "cdfs=" ++ showMat sc.shw c ++ "|" ++ runSim P.length (pathDense c) a us
     | _, _, _ => "bad-op"
+  | "histdense" :: r =>
+    match sc.mat r "P" with
+    | some P => runHist P.length (pathDense (cdfsDense P)) sc.mat r
+    | _ => "bad-op"
+  | "histsparse" :: r =>
+    match sc.list r "data", kvNats r "indices", kvNats r "indptr", kvNat r "n" with
+    | some data, some indices, some indptr, some n =>
+      runHist n (pathSparse (cdfs1d data indptr n) indices indptr) sc.mat r
+    | _, _, _, _ => "bad-op"
   | "sparse" :: r =>
     match sc.list r "data", kvNats r "indices", kvNats r "indptr", kvNat r "n", simArgs r, sc.mat r "u" with
     | some data, some indices, some indptr, some n, some a, some us =>
